@@ -28,6 +28,10 @@ OPS = [
     (r"\bstart\b", "end"), (r"\bleft\b", "right"), (r"\bnext_back\b", "next"),
     (r"\bLess\b", "Greater"), (r"\bGreater\b", "Less"),
     (r"\bSome\(", "Some_MUT_NONE("),
+    (r"\bslice_from\b", "slice_up_to"), (r"\bslice_up_to\b", "slice_from"), (r"\bstr_from\b", "str_up_to"), (r"\bstr_up_to\b", "str_from"),
+    (r"\bFromStart\b", "FromEnd"), (r"\bFromEnd\b", "FromStart"), (r"\bsaturating_sub\b", "wrapping_sub"), (r"\bchecked_sub\b", "checked_add"),
+    (r"\bstrip_prefix\b", "strip_suffix"), (r"\bfind\b", "rfind"), (r"\bskip\b", "skip_back"), (r"\btaken_front\b", "taken_back"),
+    (r"\bis_empty\(\)", "is_empty() == false"), (r"^(\s*)([\w\.\$\[\]\*]+\s*[-+]?=\s*[^;=]+;)\s*$", "\\1/* \\2 */"),
 ]
 
 
@@ -64,7 +68,7 @@ def candidates():
                     if rep == "Some_MUT_NONE(":
                         continue
                     for m in re.finditer(pat, code):
-                        cands.append((rel, i, m.start(), m.end(), rep, k))
+                        cands.append((rel, i, m.start(), m.end(), m.expand(rep) if "\\1" in rep else rep, k))
     return cands
 
 
